@@ -40,7 +40,7 @@ theorem gen_lax_raised (s : List (Step D)) (b : List Err) : (gen .lax s b).raise
 theorem gen_skip_raised (s : List (Step D)) (b : List Err) : (gen .skip s b).raised = none := by
   induction s generalizing b with
   | nil => rfl
-  | cons st k ih => cases st <;> simp [gen, ih]
+  | cons st k ih => cases st <;> simp [gen, ih] <;> split <;> simp [ih]
 
 /-- the data yielded by a lax / skip run are the results of the script, whatever the buffer. -/
 theorem gen_lax_data (s : List (Step D)) (b : List Err) : dataOf (gen .lax s b).items = results s := by
@@ -51,7 +51,7 @@ theorem gen_lax_data (s : List (Step D)) (b : List Err) : dataOf (gen .lax s b).
 theorem gen_skip_data (s : List (Step D)) (b : List Err) : dataOf (gen .skip s b).items = results s := by
   induction s generalizing b with
   | nil => rfl
-  | cons st k ih => cases st <;> simp [gen, results, dataOf, ih]
+  | cons st k ih => cases st <;> simp [gen, results, dataOf, ih] <;> split <;> simp [dataOf, ih]
 
 /-- after a `direct` only direct / result / stop steps follow (no more flushes). -/
 theorem tail_lax_errs (s : List (Step D)) (b : List Err) (h : tail2 s = true) :
@@ -72,7 +72,7 @@ theorem gen_lax_errs (s : List (Step D)) (p : Bool) (b : List Err) (h : wf s p =
     | collect e =>
       simp [wf] at h
       simp [gen, events, ih true (b ++ [e]) h (by simp)]
-    | direct e =>
+    | direct e sk =>
       simp [wf] at h
       obtain ⟨⟨hp, ht⟩, _⟩ := h
       simp [gen, events, errsOf, tail_lax_errs k _ ht, hb hp]
